@@ -13,85 +13,109 @@
        SeqStub(n)            Returns(v_1..v_n) on b1;   CallQ(m): the next m calls
    The requirement is elementary (repl[i] = the id of the last instruction that targets i, 0 after its owner's reset; the
    k-th condition selects v_k; the j-th call receives the min(j, n)-th result): what is checked is the real library,
+   (TLCEval throughout: in simulation mode TLC keeps function-valued next-state expressions as lazy closures that chain from
+   step to step; forcing them keeps a step at constant cost.)
    at every step: every target called, every entry's bytes, the image outside the mocked entries, page permissions. *)
-EXTENDS Integers, Sequences, FiniteSets, TLC, Json, SequencesExt
-CONSTANTS N, GroupNames, Groups, CondSizes, SeqSizes, MaxOps      \* Groups: [GroupNames -> SUBSET 1..N]
+EXTENDS Integers, Sequences, FiniteSets, TLC, Json
+CONSTANTS N, GroupNames, Groups, CondSizes, SeqSizes, MaxOps,     \* Groups: [GroupNames -> SUBSET 1..N]
+          Obj, HasCancel
+\* Obj: [1..N -> object]: the OBJECT a target belongs to. Functions: every target is its own object. Interface mocks
+\* (instance ScaleI): target = (variable, method), object = the variable; builders own objects; a method of a mocked variable
+\* that is not itself mocked answers "method not implements" (exp -1).
 VARIABLES own, repl, lk, nid, cstub, qstub, qpos, hist
 \* lk[i]: kind of the instruction in force on target i (a bare Return on a handle that already holds a Return stub EXTENDS its
 \* sequence - Goom.tla / C05 - and is kept out of this spec: the action is not enabled)
 vars == <<own, repl, lk, nid, cstub, qstub, qpos, hist>>
 T == 1..N
+Objs == {Obj[i] : i \in T}
+Of(S) == {Obj[i] : i \in S}
 None == [id |-> 0, n |-> 0]
 
-Init == /\ own = [i \in T |-> "none"] /\ repl = [i \in T |-> 0] /\ lk = [i \in T |-> "none"] /\ nid = 0
+Init == /\ own = [o \in Objs |-> "none"] /\ repl = [i \in T |-> 0] /\ lk = [i \in T |-> "none"] /\ nid = 0
         /\ cstub = None /\ qstub = None /\ qpos = 0 /\ hist = <<>>
 
-Ids(S) == SetToSortSeq(S, <)
-Exp == [i \in T |-> repl'[i]]                                  \* (a function over 1..N is a sequence)
-Rec(r) == hist' = Append(hist, r @@ [exp |-> Exp, cn |-> cstub'.n, cid |-> cstub'.id, qn |-> qstub'.n, qid |-> qstub'.id])
+Ids(S) == TLCEval([i \in T |-> i \in S])            \* membership mask over 1..N (a sequence of booleans)
+OIds(O) == [o \in 1..Cardinality(Objs) |-> o \in O]      \* (objects are numbered 1..K)
+\* what every target must answer, as a function of the NEW repl value f. f is passed as a state-level VALUE: TLC caches LET
+\* definitions only when they contain no prime - with repl' inside, the set of mocked objects would be rebuilt for every target
+ExpOf(f) == LET M == {j \in T : f[j] # 0}                      \* mocked targets
+                MO == Of(M)                                      \* objects with at least one mocked target
+            IN [i \in {j \in T \ M : Obj[j] \in MO} |-> -1] @@ f         \* (a function over 1..N is a sequence)
+Rec(r, f) == hist' = Append(hist, r @@ [exp |-> ExpOf(f), cn |-> cstub'.n, cid |-> cstub'.id, qn |-> qstub'.n, qid |-> qstub'.id])
 
 MockShared(g, kind) ==
-    /\ \A i \in Groups[g] : own[i] # "fresh"                       \* disjoint builders (C11)
-    /\ kind = "return" => \A i \in Groups[g] : lk[i] # "return"
-    /\ lk' = [i \in T |-> IF i \in Groups[g] THEN kind ELSE lk[i]]
+    LET G == TLCEval(Groups[g]) OG == TLCEval(Of(G))
+        nr == TLCEval([i \in G |-> nid + 1] @@ repl) IN                     \* (@@ is implemented natively: left operand wins)
+    /\ {i \in G : own[Obj[i]] = "fresh"} = {}                \* disjoint builders (C11)   (sets, not \A: TLC unfolds \A recursively)
+    /\ (kind = "return" => {i \in G : lk[i] = "return"} = {})
+    /\ lk' = TLCEval([i \in G |-> kind] @@ lk)
     /\ nid' = nid + 1
-    /\ own' = [i \in T |-> IF i \in Groups[g] THEN "shared" ELSE own[i]]
-    /\ repl' = [i \in T |-> IF i \in Groups[g] THEN nid + 1 ELSE repl[i]]
+    /\ own' = TLCEval([o \in OG |-> "shared"] @@ own)
+    /\ repl' = nr
     /\ UNCHANGED <<cstub, qstub, qpos>>
-    /\ Rec([op |-> "MockShared", g |-> g, is |-> Ids(Groups[g]), kind |-> kind, id |-> nid + 1])
+    /\ Rec([op |-> "MockShared", g |-> g, is |-> Ids(G), kind |-> kind, id |-> nid + 1], nr)
 MockFresh(g, kind) ==
-    /\ \A i \in Groups[g] : own[i] # "shared"
-    /\ kind = "return" => \A i \in Groups[g] : lk[i] # "return"
-    /\ lk' = [i \in T |-> IF i \in Groups[g] THEN kind ELSE lk[i]]
+    LET G == TLCEval(Groups[g]) OG == TLCEval(Of(G))
+        nr == TLCEval([i \in G |-> nid + 1] @@ repl) IN
+    /\ {i \in G : own[Obj[i]] = "shared"} = {}
+    /\ (kind = "return" => {i \in G : lk[i] = "return"} = {})
+    /\ lk' = TLCEval([i \in G |-> kind] @@ lk)
     /\ nid' = nid + 1
-    /\ own' = [i \in T |-> IF i \in Groups[g] THEN "fresh" ELSE own[i]]
-    /\ repl' = [i \in T |-> IF i \in Groups[g] THEN nid + 1 ELSE repl[i]]
+    /\ own' = TLCEval([o \in OG |-> "fresh"] @@ own)
+    /\ repl' = nr
     /\ UNCHANGED <<cstub, qstub, qpos>>
-    /\ Rec([op |-> "MockFresh", g |-> g, is |-> Ids(Groups[g]), kind |-> kind, id |-> nid + 1])
+    /\ Rec([op |-> "MockFresh", g |-> g, is |-> Ids(G), kind |-> kind, id |-> nid + 1], nr)
 CancelShared(g) ==
-    LET S == {i \in Groups[g] : own[i] = "shared"} IN
-    /\ S # {}
-    /\ repl' = [i \in T |-> IF i \in S THEN 0 ELSE repl[i]]          \* (own stays "shared": the cancelled mocker is still b1's)
-    /\ lk' = [i \in T |-> IF i \in S THEN "none" ELSE lk[i]]
+    LET G == TLCEval(Groups[g])
+        S == TLCEval({i \in G : own[Obj[i]] = "shared" /\ repl[i] # 0})
+        nr == TLCEval([i \in S |-> 0] @@ repl) IN        \* (own stays "shared": the cancelled mocker is still b1's)
+    /\ HasCancel /\ S # {}
+    /\ repl' = nr
+    /\ lk' = TLCEval([i \in S |-> "none"] @@ lk)
     /\ UNCHANGED <<own, nid, cstub, qstub, qpos>>
-    /\ Rec([op |-> "CancelShared", g |-> g, is |-> Ids(S)])
+    /\ Rec([op |-> "CancelShared", g |-> g, is |-> Ids(S)], nr)
 ResetShared ==
-    /\ own' = [i \in T |-> IF own[i] = "shared" THEN "none" ELSE own[i]]
-    /\ repl' = [i \in T |-> IF own[i] = "shared" THEN 0 ELSE repl[i]]
-    /\ lk' = [i \in T |-> IF own[i] = "shared" THEN "none" ELSE lk[i]]
+    LET nr == TLCEval([i \in T |-> IF own[Obj[i]] = "shared" THEN 0 ELSE repl[i]]) IN
+    /\ own' = TLCEval([o \in Objs |-> IF own[o] = "shared" THEN "none" ELSE own[o]])
+    /\ repl' = nr
+    /\ lk' = TLCEval([i \in T |-> IF own[Obj[i]] = "shared" THEN "none" ELSE lk[i]])
     /\ cstub' = None /\ qstub' = None /\ qpos' = 0
     /\ UNCHANGED nid
-    /\ Rec([op |-> "ResetShared"])
+    /\ Rec([op |-> "ResetShared"], nr)
 ResetFresh(g) ==
-    LET S == {i \in Groups[g] : own[i] = "fresh"} IN
-    /\ S # {}
-    /\ own' = [i \in T |-> IF i \in S THEN "none" ELSE own[i]]
-    /\ repl' = [i \in T |-> IF i \in S THEN 0 ELSE repl[i]]
-    /\ lk' = [i \in T |-> IF i \in S THEN "none" ELSE lk[i]]
+    LET O == TLCEval({o \in Of(Groups[g]) : own[o] = "fresh"})
+        S == TLCEval({i \in T : Obj[i] \in O})
+        nr == TLCEval([i \in S |-> 0] @@ repl) IN
+    /\ O # {}
+    /\ own' = TLCEval([o \in O |-> "none"] @@ own)
+    /\ repl' = nr
+    /\ lk' = TLCEval([i \in S |-> "none"] @@ lk)
     /\ UNCHANGED <<nid, cstub, qstub, qpos>>
-    /\ Rec([op |-> "ResetFresh", g |-> g, is |-> Ids(S)])
+    /\ Rec([op |-> "ResetFresh", g |-> g, is |-> Ids(S), os |-> OIds(O)], nr)
 
 \* conditional stub of n conditions on target C: argument a in 1..n selects v_a = id * 100000 + a, everything else the default id * 100000
 CondStub(n) ==
     /\ cstub = None
     /\ nid' = nid + 1 /\ cstub' = [id |-> nid + 1, n |-> n]
     /\ UNCHANGED <<own, repl, lk, qstub, qpos>>
-    /\ Rec([op |-> "CondStub", n |-> n, id |-> nid + 1])
+    /\ Rec([op |-> "CondStub", n |-> n, id |-> nid + 1], repl)
 CVal(a) == IF cstub.id = 0 THEN 77000 + a ELSE IF a \in 1..cstub.n THEN cstub.id * 100000 + a ELSE cstub.id * 100000
-CallC == /\ UNCHANGED <<own, repl, lk, nid, cstub, qstub, qpos>>
-         /\ Rec([op |-> "CallC", expc |-> [j \in 1..(cstub.n + 2) |-> CVal(j - 1)]])           \* arguments 0..n+1
+CallC == /\ CondSizes # {}
+         /\ UNCHANGED <<own, repl, lk, nid, cstub, qstub, qpos>>
+         /\ Rec([op |-> "CallC", expc |-> [j \in 1..(cstub.n + 2) |-> CVal(j - 1)]], repl)         \* arguments 0..n+1
 
 \* sequenced stub of n results on target Q: the j-th call receives v_min(j, n) = id * 100000 + min(j, n)
 SeqStub(n) ==
     /\ qstub = None
     /\ nid' = nid + 1 /\ qstub' = [id |-> nid + 1, n |-> n] /\ qpos' = 0
     /\ UNCHANGED <<own, repl, lk, cstub>>
-    /\ Rec([op |-> "SeqStub", n |-> n, id |-> nid + 1])
+    /\ Rec([op |-> "SeqStub", n |-> n, id |-> nid + 1], repl)
 MinOf(a, b) == IF a < b THEN a ELSE b
 QVal(j) == IF qstub.id = 0 THEN 88000 + 7 ELSE qstub.id * 100000 + MinOf(j, qstub.n)
-CallQ(m) == /\ qpos' = qpos + m
+CallQ(m) == /\ SeqSizes # {}
+            /\ qpos' = qpos + m
             /\ UNCHANGED <<own, repl, lk, nid, cstub, qstub>>
-            /\ Rec([op |-> "CallQ", m |-> m, expq |-> [j \in 1..m |-> QVal(qpos + j)]])
+            /\ Rec([op |-> "CallQ", m |-> m, expq |-> [j \in 1..m |-> QVal(qpos + j)]], repl)
 
 Finish == Len(hist) = MaxOps /\ hist' = Append(hist, [op |-> "End"]) /\ UNCHANGED <<own, repl, lk, nid, cstub, qstub, qpos>>
 Step == \/ \E g \in GroupNames, k \in {"apply", "return"} : MockShared(g, k) \/ MockFresh(g, k)
@@ -105,8 +129,8 @@ Spec == Init /\ [][Next]_vars
 
 \* a reset gives back exactly what its builder holds
 ResetExact == [][(Len(hist') > Len(hist) /\ hist'[Len(hist')].op = "ResetShared") =>
-                   \A i \in T : (own[i] = "shared" => repl'[i] = 0) /\ (own[i] # "shared" => repl'[i] = repl[i])]_vars
-OwnedIffMocked == \A i \in T : own[i] = "none" => repl[i] = 0
+                   \A i \in T : (own[Obj[i]] = "shared" => repl'[i] = 0) /\ (own[Obj[i]] # "shared" => repl'[i] = repl[i])]_vars
+OwnedIffMocked == \A i \in T : own[Obj[i]] = "none" => repl[i] = 0
 View == <<own, repl, lk, cstub, qstub, qpos, Len(hist)>>
 Emit == Len(hist) = MaxOps + 1 => PrintT(ToJson(SubSeq(hist, 1, MaxOps)))
 =============================================================================
